@@ -115,7 +115,8 @@ def _abstract_facts(facts, opname: str):
 
 def check_check_transition(ctx):
     P = ctx.P
-    f = P.fn(RS, "PipelineRuntimeStatus.check_transition")
+    from ..util import inline_predicates
+    f = inline_predicates(P, P.fn(RS, "PipelineRuntimeStatus.check_transition"))   # private pure predicates are looked through
     ctx.touch(f)
     params = f.params()
     ctx.need(len(params) >= 3, "check_transition must take (self, operator, new_state)")
@@ -227,11 +228,11 @@ def check_running_sites(ctx):
             ctx.ob(6, "K1", "transitions with a computed target state exist only in the forwarding wrappers", ok, fn_, c,
                    detail=f"in {fn_.mod.rel}::{fn_.qual}")
             continue
-        ctx.ob(6, "K1", "operators are moved to RUNNING only by Container._tick_generator", fn_.node is gen.node, fn_, c,
+        ctx.ob(6, "K1", "operators are moved to RUNNING only by Container._tick_generator", same_fn(fn_, gen), fn_, c,
                detail=f"RUNNING transition in {fn_.mod.rel}::{fn_.qual}")
     g = cfg_of(gen, subst_env=False)
     for fn_, c, recv, st in run_sites:
-        if fn_.node is not gen.node:
+        if not same_fn(fn_, gen):
             continue
         lp = enclosing_for(c, gen.node)
         ok = False
@@ -271,7 +272,8 @@ def check_running_sites(ctx):
 
 def check_get_ops(ctx):
     P = ctx.P
-    f = P.fn(RS, "PipelineRuntimeStatus.get_ops")
+    from ..util import inline_predicates
+    f = inline_predicates(P, P.fn(RS, "PipelineRuntimeStatus.get_ops"))
     ctx.touch(f)
     params = f.params()
     ctx.need("require_parents_complete" in params and len(params) >= 2, "get_ops lost its (state, require_parents_complete) parameters")
@@ -327,13 +329,7 @@ def check_get_ops(ctx):
             continue
         fs = g.facts_at(ap)
         fs_abs = _abstract_facts(fs, opv)
-        allowed_names = set()
-        for n in own_nodes(f.node):
-            if isinstance(n, ast.Assign) and len(n.targets) == 1 and isinstance(n.targets[0], ast.Name):
-                v = norm.U(n.value)
-                if v in (f"[{state_p}]", state_p, f"({state_p},)", f"list({state_p})", f"[{state_p}]"):
-                    allowed_names.add(n.targets[0].id)
-        allowed_names.add(state_p)
+        allowed_names = _allowed_names(f, state_p)
         ok_state = any(norm.entails(fs, ("cmp", "in", state_txt, a)) for a in allowed_names) \
             or norm.entails(fs, norm.mk_cmp("==", state_txt, state_p))
         ctx.ob(7, "K2", "an operator is listed only if its current state is one of the requested states", ok_state, f, ap,
@@ -343,6 +339,20 @@ def check_get_ops(ctx):
         ctx.ob(7, "K2", "with require_parents_complete an operator is listed only if all its parents are COMPLETED", ok_par, f, ap,
                detail=f"required: not require_parents_complete or all(parents COMPLETED); facts: {sorted(norm.show(x) for x in fs_abs)}")
     _check_status_init(ctx)
+
+
+def _allowed_names(f, state_p: str) -> set:
+    """locals that hold the requested state(s): the parameter itself, or a normalisation of it ([state], (state,), list(state),
+    or a conditional expression choosing between such forms)"""
+    def derived(v: ast.expr) -> bool:
+        if isinstance(v, ast.IfExp):
+            return derived(v.body) and derived(v.orelse)
+        return norm.U(v) in (f"[{state_p}]", state_p, f"({state_p},)", f"list({state_p})")
+    out = {state_p}
+    for n in own_nodes(f.node):
+        if isinstance(n, ast.Assign) and len(n.targets) == 1 and isinstance(n.targets[0], ast.Name) and derived(n.value):
+            out.add(n.targets[0].id)
+    return out
 
 
 def _check_get_ops_comprehension(ctx, f, g, ret, state_p):
@@ -363,10 +373,7 @@ def _check_get_ops_comprehension(ctx, f, g, ret, state_p):
     fs = set(g.facts_at(ret))
     for c in gen.ifs:
         fs |= set(norm.atoms_true(norm.nnf(c)))
-    allowed_names = {state_p}
-    for n in own_nodes(f.node):
-        if isinstance(n, ast.Assign) and len(n.targets) == 1 and isinstance(n.targets[0], ast.Name) and norm.U(n.value) in (f"[{state_p}]", state_p, f"({state_p},)", f"list({state_p})"):
-            allowed_names.add(n.targets[0].id)
+    allowed_names = _allowed_names(f, state_p)
     ok_state = any(norm.entails(fs, ("cmp", "in", state_txt, a)) for a in allowed_names) or norm.entails(fs, norm.mk_cmp("==", state_txt, state_p))
     ctx.ob(7, "K2", "an operator is listed only if its current state is one of the requested states", ok_state, f, ret,
            detail=f"required: {state_txt} in <{'|'.join(sorted(allowed_names))}>; conditions: {sorted(norm.show(x) for x in fs)}")
